@@ -209,6 +209,8 @@ class Family:
         return f"_V[{key!r}]"
 
     def _render_nt(self, d, value_maker):
+        if d.get("untyped"):
+            return f"{d['name']} = collections.namedtuple({d['name']!r}, {[f['n'] for f in d['fields']]!r})\n"
         if d.get("functional"):
             fs = ", ".join(f"({f['n']!r}, {tast.render(f['t'])})" for f in d["fields"])
             return f"{d['name']} = NamedTuple({d['name']!r}, [{fs}])\n"
